@@ -15,11 +15,15 @@ namespace c01 {
 typedef remora::vector<double> Vec;
 typedef remora::matrix<double, remora::row_major> MatA;
 typedef remora::matrix<double, remora::column_major> MatB;
+typedef remora::compressed_vector<double> SVec;
+typedef remora::compressed_matrix<double> SMat;   // row-major compressed
 
 struct Store{
 	std::vector<Vec> v;
 	std::vector<MatA> A;
 	std::vector<MatB> B;
+	std::vector<SVec> s;   // sparse operands (read-only in statements)
+	std::vector<SMat> C;
 };
 
 // ---------------------------------------------------------------- oracle values
@@ -35,6 +39,9 @@ inline void need(bool c, char const* what){ if(!c) throw OracleError(what); }
 inline OV o_v(Store const& S, std::size_t k){ OV r(S.v.at(k).size()); for(std::size_t i = 0; i != r.size(); ++i) r[i] = S.v[k](i); return r; }
 template<class M> inline OM o_mat(M const& m){ OM r(m.size1(), m.size2()); for(std::size_t i = 0; i != r.n1; ++i) for(std::size_t j = 0; j != r.n2; ++j) r(i,j) = m(i,j); return r; }
 inline OM o_A(Store const& S, std::size_t k){ return o_mat(S.A.at(k)); }
+// dense copies of the sparse operands, read through their iterators
+inline OV o_s(Store const& S, std::size_t k){ SVec const& x = S.s.at(k); OV r(x.size(), 0.0); for(SVec::const_iterator it = x.begin(); it != x.end(); ++it) r.at(it.index()) = *it; return r; }
+inline OM o_C(Store const& S, std::size_t k){ SMat const& m = S.C.at(k); OM r(m.size1(), m.size2()); for(std::size_t i = 0; i != m.size1(); ++i) for(SMat::const_major_iterator it = m.major_begin(i); it != m.major_end(i); ++it) r(i, it.index()) = *it; return r; }
 inline OM o_B(Store const& S, std::size_t k){ return o_mat(S.B.at(k)); }
 
 inline OV o_range(OV const& a, std::size_t s, std::size_t e){ need(s <= e && e <= a.size(), "range"); return OV(a.begin()+s, a.begin()+e); }
